@@ -517,8 +517,9 @@ def check_generic(prop, tier, cfgs, n_quick, n_thorough, sigfun, stages, level="
             v.inconclusive = f"{len(incon)} of {len(progs)} programs inconclusive: {incon[0][1][:300]}"
         elif accepted < evaluated * 0.5:
             v.inconclusive = f"generator accepted only {accepted} of {evaluated} in-subset programs"
-        elif stages and prop != "C01" and compiled < accepted * 0.7:
-            # a program that does not compile is C01's finding; the later stages of this check had nothing to look at
+        elif stages and prop != "C01" and compiled < accepted * 0.7 and not v.records:
+            # a program that does not compile is C01's finding; the later stages of this check had nothing to look at (when this
+            # check did record violations on the programs it could judge, those stand)
             v.inconclusive = (f"only {compiled} of {accepted} generated programs compiled (see C01): too few executions to "
                               f"say anything about {prop}")
         v.finish(cov, assumptions=[
@@ -852,7 +853,8 @@ def run(prop, tier):
             "generator as C01 (XSD profiles) plus the extension-forest profile of C08 (chains over several namespaces); for every complex type and anonymous global element up to 4 sampled values "
             "(minimal / full / many / boundary) are built as Rust literals of the emitted types and of independently written "
             "reference structs, serialized, deserialized from 5 independently rendered instance styles, re-serialized; all XML "
-            "is compared as namespace-aware infosets (expat) with the expected infoset of the abstract value. A deviation that the "
+            "is compared as namespace-aware infosets (expat) with the expected infoset of the abstract value; the Default value of "
+            "every struct is serialized on both sides as well and must show the same elements and attributes. A deviation that the "
             "reference structs show as well is attributed to the yaserde runtime and excluded (counted under excluded:*). "
             "Non-trivial = programs with >= 1 value run"),
             nontrivial=lambda p: p.stats.get("runtime_cases", 0) > 0)
@@ -900,7 +902,9 @@ def stage_runtime(p, values_per_struct=4, with_docs=True):
                 hits = p.located.get(id(e), [])
                 if len(hits) == 1 and docs:
                     docs_src = ", ".join(driver.rust_str(d) for d in docs)
-                    fn = (f"fn case_{cid}() {{\n    let docs: [&str; {len(docs)}] = [{docs_src}];\n"
+                    dflt = (f"    run_default::<r::{p.refemit.names[id(comp)]}>({driver.rust_str(cid)}, \"r\"); "
+                            f"run_default::<{refmap.rust_path(hits[0])}>({driver.rust_str(cid)}, \"g\");\n") if k == 0 else ""
+                    fn = (f"fn case_{cid}() {{\n    let docs: [&str; {len(docs)}] = [{docs_src}];\n" + dflt +
                           f"    {{ let rv = {r_lit}; run_case({driver.rust_str(cid)}, \"r\", &rv, &docs); }}\n"
                           f"    run_docs::<{refmap.rust_path(hits[0])}>({driver.rust_str(cid)}, \"g\", &docs);\n"
                           f"    emit(format!(\"{{{{\\\"ev\\\":\\\"case-done\\\",\\\"id\\\":{{}}}}}}\", js({driver.rust_str(cid)})));\n}}\n")
@@ -908,7 +912,10 @@ def stage_runtime(p, values_per_struct=4, with_docs=True):
                     meta[cid] = {"entry": e, "value": v, "tree": tree, "docs": docs, "constrained": constrained, "docs_only": True}
                 continue
             docs_src = ", ".join(driver.rust_str(d) for d in docs)
-            fn = (f"fn case_{cid}() {{\n    let docs: [&str; {len(docs)}] = [{docs_src}];\n"
+            hits = p.located.get(id(e), [])
+            dflt = (f"    run_default::<r::{p.refemit.names[id(comp)]}>({driver.rust_str(cid)}, \"r\"); "
+                    f"run_default::<{refmap.rust_path(hits[0])}>({driver.rust_str(cid)}, \"g\");\n") if k == 0 and len(hits) == 1 else ""
+            fn = (f"fn case_{cid}() {{\n    let docs: [&str; {len(docs)}] = [{docs_src}];\n" + dflt +
                   f"    {{ let rv = {r_lit}; run_case({driver.rust_str(cid)}, \"r\", &rv, &docs); }}\n"
                   f"    {{ let v = {g_lit}; run_case({driver.rust_str(cid)}, \"g\", &v, &docs); run_check({driver.rust_str(cid)}, &v); }}\n"
                   f"    emit(format!(\"{{{{\\\"ev\\\":\\\"case-done\\\",\\\"id\\\":{{}}}}}}\", js({driver.rust_str(cid)})));\n}}\n")
@@ -964,6 +971,25 @@ def stage_runtime(p, values_per_struct=4, with_docs=True):
         bump("runtime_cases")
         e = m["entry"]
         tree = m["tree"]
+        # ---- C03: the default value (nothing present that the type can leave out) on both sides: same elements and attributes.
+        # This needs no value literal, so it also sees a struct whose shape deviates (a member that cannot be left out).
+        gdf, rdf = ge.get("default"), re_.get("default")
+        if gdf and rdf and gdf.get("ok") and rdf.get("ok"):
+            try:
+                rtree, gtree = instance.parse(rdf["text"]), instance.parse(gdf["text"])
+            except instance.ParseError:
+                rtree = gtree = None
+            if rtree is not None:
+                bump("c03_default_values_compared")
+
+                def skeleton(n):
+                    return (n.local, n.uri, tuple(sorted(a[0][1] if isinstance(a[0], tuple) else a[0] for a in n.attrs)),
+                            tuple(skeleton(c) for c in (n.children or [])))
+                if skeleton(rtree) != skeleton(gtree):
+                    rk = [c.local for c in (rtree.children or [])]
+                    gk = [c.local for c in (gtree.children or [])]
+                    kind = "child-extra" if len(gk) > len(rk) else ("child-missing" if len(gk) < len(rk) else "differs")
+                    p.finding("default-value", struct=e["xml"], kind=kind, reference=rdf["text"][:300], generated=gdf["text"][:300])
         # ---- C03: serialization
         gs, rs_ = ge.get("ser"), re_.get("ser")
         r_diffs = set()
@@ -1086,6 +1112,8 @@ def sig_c03(f):
     r = f["rule"]
     if r == "ser-error":
         return "C03|ser-error"
+    if r == "default-value":
+        return f"C03|default-value|kind={f['kind']}"
     if r == "wire":
         d = f["diff"]
         o = d.get("origin")
